@@ -7,7 +7,7 @@
    c16_no_writable_state.  Independence from optimisation level and hardening flags is observed by the
    three-build comparison of the check, not proved. *)
 From Coq Require Import List.
-From LW Require Import Base.Bytes Model.TagIter Model.Radiotap Model.Frame Model.CRC Gen.Globals Proofs.SafetyProofs.
+From LW Require Import Base.Bytes Model.TagIter Model.Radiotap Model.Frame Model.CRC Model.Security Model.Mgmt Gen.Globals Proofs.SafetyProofs.
 Import ListNotations.
 Local Open Scope Z_scope.
 
@@ -31,6 +31,14 @@ Theorem c13_fcs_env_independent : forall buf env1 env2, wfbytes buf ->
   frame_verify (rd_env buf env1) (zlen buf) = frame_verify (rd_env buf env2) (zlen buf).
 Proof. exact fcs_env_indep. Qed.
 Print Assumptions c13_fcs_env_independent.
+
+(* the element decoders called directly on a byte range *)
+Theorem c13_ie_decoders_env_independent : forall buf env1 env2, wfbytes buf ->
+  get_rsn_info (rd_env buf env1) 0 (zlen buf) = get_rsn_info (rd_env buf env2) 0 (zlen buf) /\
+  get_wpa_info (rd_env buf env1) 0 (zlen buf) = get_wpa_info (rd_env buf env2) 0 (zlen buf) /\
+  (forall b, handle_msft (rd_env buf env1) b 0 (zlen buf) = handle_msft (rd_env buf env2) b 0 (zlen buf)).
+Proof. exact decoders_env_indep. Qed.
+Print Assumptions c13_ie_decoders_env_independent.
 
 (* the classified frame is a value built from the input bytes (it owns its data), and the library has no
    state that one call could leave for the next *)
